@@ -354,4 +354,4 @@ def run(ctx):
     ctx.note('excluded_from_domain',
              'sizes outside the supported family; Color666ToricCode with L_x != L_y (C01 known finding)')
     ctx.run_cases(cases, chunk=4)
-    ctx.run_hypothesis('request_cases', 400 if quick else 6000)
+    ctx.run_hypothesis('request_cases', 400 if quick else 20000)
